@@ -666,6 +666,26 @@ func main() {
 		oracle(m, o)
 	}
 
+	// ---- every class of rune strconv's quoting tells apart, in localized, ASCII and JIS-8 items:
+	// the encoder / parser ties on all of them, the round-trip oracle where the statement applies
+	for i, qs := range smlcase.QuoteCorpus() {
+		items := []secs2.Item{secs2.NewLocalizedStrItem(uint16(i%16), qs), secs2.NewASCIIItem(qs)}
+		if i%3 == 0 {
+			items = append(items, secs2.NewJIS8Item(qs), secs2.NewListItem(secs2.NewJIS8Item(qs), secs2.NewUTF8StrItem(qs)))
+		}
+		for _, it := range items {
+			m := mkMsg(it)
+			if m == nil {
+				continue
+			}
+			o := randOpts(r, true)
+			if text := encCase(m, o, "quote-corpus"); text != "" {
+				pcase(text, "encoded-quote-corpus")
+			}
+			oracle(m, o)
+		}
+	}
+
 	// ---- random in-domain messages x options (the property's first half) ----
 	for i := 0; i < c.N; i++ {
 		it := smlcase.Tree(r, cfgIn, 0, true)
